@@ -1,77 +1,62 @@
 /-
-  Bridge (DESIGN.md 4.1b): the GLUE between the library and the CLI — the command functions of
-  `/repo/cmd/gts/{select,sort,reverse,complement,repair,clear,define,pick,query,search,join,summary,annotate,length}.go`,
-  which have no regenerated tie of their own — as go2lean extracts them from the Go source on every run
-  (`Gts/Gen/CmdFacts.lean`, generator go2lean/cmdfacts.go) are what the hand-written expectation
-  `Gts/Spec/CmdTable.lean` says, line by line with what each line does in terms of the library function the model has.
+  Bridge (DESIGN.md 4.1b): the GLUE between the library and the CLI as facts — the inventory of cmd/gts and the commands of C19: select, sort, clear, define, annotate.
+  The command functions of `/repo/cmd/gts/*.go` that have no regenerated tie of their own, as go2lean extracts them from
+  the Go source on every run (`Gts/Gen/CmdFacts.lean`, generator go2lean/cmdfacts.go: normal form, one line per statement,
+  locals `v0, v1, …`, parameters by type), are what the hand-written expectation `Gts/Spec/CmdTable.lean` says, line by
+  line with what each line does in terms of the library function the model has.
 
-  One theorem per command FILE (`cmd_<file>`, the kernel compares the two literal tables), so that a change names the
-  file that changed; `cmd_inventory` (a new command file, a new function in a file, a command registered under another
-  name or for another function breaks it); `cmd_pipelines`: the library calls of EVERY command function (the six
-  multi-site ones included) in source order with the kinds of the headers they stand under — no variable name, no line
-  number.
+  Per command FILE `cmd_<file>` — every function, method and function literal of the file in normal form, its top-level
+  declarations, its types (`rfl`: the kernel compares the two literal tables) — and `cmd_<file>_pipeline` — the library
+  calls of the command function in source order with the kinds of the headers above them (no variable name, no line
+  number: renaming, re-ordered option declarations, another error text keep it; a library call added, dropped, replaced
+  or moved under / out of a condition or loop changes it).  One bridge module per property, so that a change of a
+  command file stops the check of ITS property only.
 -/
 import Gts.Gen.CmdFacts
 import Gts.Spec.CmdTable
 namespace Gts.Bridge.Cmd
 
-/-- the inventory of cmd/gts: the files, how each is tied, and their top-level declarations are the expected ones — a
-NEW command file (tie `new`), a new helper function, a removed one shows here -/
+/-- the inventory of cmd/gts: the files and how each is tied (and, for the files that are not given as facts, their
+top-level declarations) are the expected ones — a NEW command file shows here with the tie `new` -/
 theorem cmd_inventory : Gts.Gen.Cmd.files = Gts.Spec.Cmd.files := rfl
 
-/-- which function runs for which command name (`flags.Register` in the `init` functions) -/
+/-- which function runs for which command name (`flags.Register` in the `init` functions of ALL command files) -/
 theorem cmd_registered : Gts.Gen.Cmd.registered = Gts.Spec.Cmd.registered := rfl
 
-/-- the types the command files declare (`byLength = []gts.Sequence` …) -/
-theorem cmd_types : Gts.Gen.Cmd.types = Gts.Spec.Cmd.types := rfl
-
-/-- `gts annotate`: every feature of the table file is `Insert`ed into every record, in file order -/
-theorem cmd_annotate : Gts.Gen.Cmd.file_annotate = Gts.Spec.Cmd.file_annotate := rfl
-
-/-- `gts clear`: `Features().Filter(Key("source"))` -/
-theorem cmd_clear : Gts.Gen.Cmd.file_clear = Gts.Spec.Cmd.file_clear := rfl
-
-/-- `gts complement`: `gts.Complement` per record and nothing else -/
-theorem cmd_complement : Gts.Gen.Cmd.file_complement = Gts.Spec.Cmd.file_complement := rfl
-
-/-- `gts define`: one feature (key, `AsLocation`, `-q` qualifiers) `Insert`ed into every record -/
-theorem cmd_define : Gts.Gen.Cmd.file_define = Gts.Spec.Cmd.file_define := rfl
-
-/-- `gts join`: `gts.Concat` of all records, `-c` sets the topology -/
-theorem cmd_join : Gts.Gen.Cmd.file_join = Gts.Spec.Cmd.file_join := rfl
-
-/-- `gts length`: `gts.Len` per record, one decimal line -/
-theorem cmd_length : Gts.Gen.Cmd.file_length = Gts.Spec.Cmd.file_length := rfl
-
-/-- `gts pick`: the `cut`-style list, records numbered from 1 -/
-theorem cmd_pick : Gts.Gen.Cmd.file_pick = Gts.Spec.Cmd.file_pick := rfl
-
-/-- `gts query`: the feature report -/
-theorem cmd_query : Gts.Gen.Cmd.file_query = Gts.Spec.Cmd.file_query := rfl
-
-/-- `gts repair`: `gts.Repair` on the table of every record and nothing else -/
-theorem cmd_repair : Gts.Gen.Cmd.file_repair = Gts.Spec.Cmd.file_repair := rfl
-
-/-- `gts reverse`: `gts.Reverse` per record and nothing else -/
-theorem cmd_reverse : Gts.Gen.Cmd.file_reverse = Gts.Spec.Cmd.file_reverse := rfl
-
-/-- `gts search`: `Match` / `Search` per query on the record and on its reverse complement; the features it adds -/
-theorem cmd_search : Gts.Gen.Cmd.file_search = Gts.Spec.Cmd.file_search := rfl
-
 /-- `gts select`: `Or(Key("source"), invert ? Not(Or(selectors…)) : Or(selectors…))`, then `And(·, strand)`; `Filter` per
-record (seeded W10-1 — the strand restriction inside the negation — breaks it) -/
-theorem cmd_select : Gts.Gen.Cmd.file_select = Gts.Spec.Cmd.file_select := rfl
+record (seeded W10-1 — the strand restriction inside the negation — breaks it, and `cmd_select_pipeline`) -/
+theorem cmd_select : Gts.Gen.Cmd.file_select = Gts.Spec.Cmd.file_select ∧ Gts.Gen.Cmd.decls_select = Gts.Spec.Cmd.decls_select ∧
+    Gts.Gen.Cmd.types_select = Gts.Spec.Cmd.types_select := ⟨rfl, rfl, rfl⟩
+
+/-- the library pipeline of `gts select` -/
+theorem cmd_select_pipeline : Gts.Gen.Cmd.pipeline_select = Gts.Spec.Cmd.pipeline_select := rfl
 
 /-- `gts sort`: `byLength.Less(i, j) = Len(ss[j]) < Len(ss[i])`, `-r` = `sort.Reverse`, `sort.Sort`, all records written -/
-theorem cmd_sort : Gts.Gen.Cmd.file_sort = Gts.Spec.Cmd.file_sort := rfl
+theorem cmd_sort : Gts.Gen.Cmd.file_sort = Gts.Spec.Cmd.file_sort ∧ Gts.Gen.Cmd.decls_sort = Gts.Spec.Cmd.decls_sort ∧
+    Gts.Gen.Cmd.types_sort = Gts.Spec.Cmd.types_sort := ⟨rfl, rfl, rfl⟩
 
-/-- `gts summary`: the text report -/
-theorem cmd_summary : Gts.Gen.Cmd.file_summary = Gts.Spec.Cmd.file_summary := rfl
+/-- the library pipeline of `gts sort` -/
+theorem cmd_sort_pipeline : Gts.Gen.Cmd.pipeline_sort = Gts.Spec.Cmd.pipeline_sort := rfl
 
-/-- the library pipeline of EVERY command function (also delete / insert / infix / split / rotate / extract): the calls
-of `gts.*` / `seqio.*` and the methods of library values in source order, each with the kinds of the headers above it.
-Renaming, re-ordering of option declarations, another error text keep it; a library call added, dropped, replaced or
-moved under / out of a condition or loop changes it (seeded W10-1: `gts.And` in front of `gts.Not`). -/
-theorem cmd_pipelines : Gts.Gen.Cmd.pipeline = Gts.Spec.Cmd.pipeline := rfl
+/-- `gts clear`: `Features().Filter(Key("source"))` -/
+theorem cmd_clear : Gts.Gen.Cmd.file_clear = Gts.Spec.Cmd.file_clear ∧ Gts.Gen.Cmd.decls_clear = Gts.Spec.Cmd.decls_clear ∧
+    Gts.Gen.Cmd.types_clear = Gts.Spec.Cmd.types_clear := ⟨rfl, rfl, rfl⟩
+
+/-- the library pipeline of `gts clear` -/
+theorem cmd_clear_pipeline : Gts.Gen.Cmd.pipeline_clear = Gts.Spec.Cmd.pipeline_clear := rfl
+
+/-- `gts define`: one feature (key, `AsLocation`, `-q` qualifiers) `Insert`ed into every record -/
+theorem cmd_define : Gts.Gen.Cmd.file_define = Gts.Spec.Cmd.file_define ∧ Gts.Gen.Cmd.decls_define = Gts.Spec.Cmd.decls_define ∧
+    Gts.Gen.Cmd.types_define = Gts.Spec.Cmd.types_define := ⟨rfl, rfl, rfl⟩
+
+/-- the library pipeline of `gts define` -/
+theorem cmd_define_pipeline : Gts.Gen.Cmd.pipeline_define = Gts.Spec.Cmd.pipeline_define := rfl
+
+/-- `gts annotate`: every feature of the table file is `Insert`ed into every record, in file order -/
+theorem cmd_annotate : Gts.Gen.Cmd.file_annotate = Gts.Spec.Cmd.file_annotate ∧ Gts.Gen.Cmd.decls_annotate = Gts.Spec.Cmd.decls_annotate ∧
+    Gts.Gen.Cmd.types_annotate = Gts.Spec.Cmd.types_annotate := ⟨rfl, rfl, rfl⟩
+
+/-- the library pipeline of `gts annotate` -/
+theorem cmd_annotate_pipeline : Gts.Gen.Cmd.pipeline_annotate = Gts.Spec.Cmd.pipeline_annotate := rfl
 
 end Gts.Bridge.Cmd
